@@ -7,6 +7,42 @@ ENV = "env -u GOWORK GOFLAGS=-mod=mod GOPROXY=off GOSUMDB=off GOTOOLCHAIN=local"
 
 # id -> (technique, level text, level note, design ref)
 CLAIMED = {
+ "C01": ("path-sensitive guard analysis of the wrapper's and both formats' Verify (modular skeletons), argument-identity terms, call-tree effect scan, closed census of integrity-error origins",
+         "Every success path of Verify passes: Raw non-empty, content extracted, chain check with the content's own chain/time/algorithm, then the format's cryptographic verification called with exactly the parsed message's bytes and the public key of certs[0] of the chain parsed from the same envelope and the algorithm derived from that key; a failing cryptographic check can only reach a SignatureIntegrityError return; the verified payload/attributes returned are fields of the same parsed object; nothing between parse and verify writes the message.",
+         "In-repo gating and argument identity only. Trusted: go-cose Sign1Message.Verify, golang-jwt Parser.Parse, crypto/*.",
+         "DESIGN.md 5 C01"),
+ "C02": ("table extraction by path analysis (ExtractKeySpec, SignatureAlgorithm, format maps) + sibling agreement of writer/reader maps + guard analysis of algorithm pairing at sign and verify",
+         "The algorithm space is finite and the code is table-shaped: accepted key kinds/sizes, KeySpec->Algorithm->hash rows, the JWS and COSE algorithm maps (writer and reader are the same map object or inverse rows), PS/ES only, and on verification the declared algorithm must equal the one derived from the leaf key (JWS: allow-list passed to the parser and header alg compared; COSE: verifier built from the leaf key's algorithm and protected alg compared). Local signer pairing (key belongs to leaf certificate).",
+         "Trusted: jwt.WithValidMethods and go-cose reject other algorithms (pinned versions). Does not decide the cryptography.",
+         "DESIGN.md 5 C02"),
+ "C07": ("per-attribute guard analysis of both readers (Content path) with two-sided tables, sibling cross-check JWS/COSE, critical-header rules",
+         "For each signed attribute of both formats: the reader returns content only after presence/type/scheme-consistency checks (signing scheme one of two; signingTime only under x509, authenticSigningTime only and always under signingAuthority; expiry optional; crit must list exactly the headers that require it and nothing unknown/absent); every rejection origin is justified by a stated violation; both readers implement the same rule set.",
+         "Shape of in-repo parsing logic; decoder behaviour (json/cbor) trusted.",
+         "DESIGN.md 5 C07"),
+ "C08": ("structural necessary conditions by path analysis and term identity: lossy-decode rule, external-signer pass-through, writer/reader label agreement, truncation ordering",
+         "NOT round-trip equality. Decided: (1) the JWS payload is decoded only through a json.Decoder with UseNumber() before Decode and never json.Unmarshal, COSE stores the payload verbatim; (2) external signers receive exactly the to-be-signed bytes and their signature is returned untransformed (base64 RawURL everywhere in jws); (3) writer and reader use the same header struct / label constants, scheme-dependent time field under the scheme's guard, expiry iff non-zero; times truncated to seconds before validation and before encoding; (4) JWS verification does not interpret the payload as JWT claims.",
+         "Value equality after encode/decode through encoding/json, cbor, jwt and go-cose is not decided (runtime values); see not-decided list in DESIGN.",
+         "DESIGN.md 5 C08"),
+ "C09": ("site engine over the typed AST + product graphs: nil-after-error and optional-field dereference dominance, bounds rules for every index/slice site (with caller contexts), assertion dominance, loop-progress cycles, panic/goroutine/IO/context lints",
+         "NOT crash-freedom of the dependencies' decoders. Decided for the repository's own code: every value returned with an error is dereferenced only after the error (or value) test; optional parsed fields tested before use; every index/slice/single-value-assertion site discharged by a rule; caller-supplied interface keys restricted before hashing; explicit panics only in init / nil-argument / re-raise; every goroutine recovers and forwards, spawner re-raises; bodies read through LimitReader with constant bound; requests only with context derived from the caller; every non-range loop progresses on each cycle.",
+         "Crashes, stack exhaustion or quadratic behaviour inside third-party decoders, nil elements inside caller-built slices and slow-drip bodies are not decided.",
+         "DESIGN.md 5 C09"),
+ "C13": ("per-iteration / only-after-exhaustion loop rules on the attribute readers and writers, reserved-key table extraction, sibling cross-check",
+         "Extended attributes: the reader returns exactly the protected headers outside the system table, each with Critical = membership in crit; a critical header that is absent/unknown is refused; the writer refuses reserved and duplicate keys and marks critical ones in crit; system tables of writer and reader agree (7 keys/labels per format).",
+         "Decoder behaviour for exotic key types trusted.",
+         "DESIGN.md 5 C13"),
+ "C15": ("modular guard analysis of timestamp.Timestamp (gate chain, aggregation fold recogniser) and of the envelope call sites (argument terms)",
+         "A timestamp countersignature is requested only under notary.x509 with a timestamper configured; the token is accepted only after: response status granted/valid, SignedToken parsed, Verify with the request's roots, Info validated against the exact message (the signature bytes) and hash, TSA chain validated with the timestamping profile, optional revocation with all results OK/NonRevokable (fold recognised: Revoked dominates, Unknown refuses); the stored token is the verified response's bytes; JWS and COSE pass the signature bytes, not the payload.",
+         "tspclient-go verification internals trusted.",
+         "DESIGN.md 5 C15"),
+ "C16": ("three-layer guard analysis of the signing gate (wrapper, JWS, COSE) with per-iteration attribute rules and reader/writer table containment",
+         "Every success path of Sign passes every conjunct of the request validation (times truncated first; payload, signing time, expiry ordering, signer, key spec, scheme; format-level Sign ok; content of produced envelope ok; chain valid at signing time; declared == derived algorithm); each format refuses non-string / non-integer-or-string, duplicate and reserved attribute keys before any map access; error => nil bytes in all three Sign methods; local signer pairing.",
+         "Encoder-side rejections and third-party signers returning nil certificates are not decided.",
+         "DESIGN.md 5 C16"),
+ "C20": ("typestate analysis over Raw and the inner message: store ordering, clear-on-failure, purity (effect scan) of Verify/Content, who-may-write",
+         "The only store to the inner message in each format's Sign is not followed by a failing return; the wrapper stores Raw only after the format-level Sign succeeded, clears it on every later failure, returns the stored bytes; Verify/Content write nothing reachable from the receiver; SignatureNotFound exactly for empty Raw; Raw written only by Sign and the two ParseEnvelope literals; registry written only from init.",
+         "Caller mutation of returned slices not decided.",
+         "DESIGN.md 5 C20"),
  "C03": ("path-sensitive guard analysis on the typed AST (inlined CFG x abstract store), two-sided atom table",
          "Static, all-paths decision of the in-repo validator logic: every accepting path of x509.ValidateCodeSigningCertChain passes every condition the property requires in its context, and every rejection origin is guarded by the negation of a stated requirement (so boundaries, operands, positions and the OID/bit/EKU tables are exactly those of the statement); Sign/Verify/Content and the revocation validator route the chain through it. It covers all chains, positions and signing times for the shape of the logic, which a sampled test cannot.",
          "Decides the structure of the in-repo logic only. Trusted: crypto/x509 CheckSignature/CheckSignatureFrom, certificate parsing, go/types. Not decided: signature mathematics, chains with nil elements.",
